@@ -26,7 +26,9 @@ Open Scope Z_scope.
 
 (* The property, for line lists of any length with non-grammar lines interleaved anywhere: the
    decoder returns messages whose reports, in order, are exactly the reports the reference
-   reader assigns to the lines, in line order. [np] is the JSON oracle of _networkConfig. *)
+   reader assigns to the lines, in line order. [np] is the JSON oracle of _networkConfig.
+   Full over the reader's strict domain; the only bound inside that domain is the digit bound
+   of the three float fields (see c04_float_*_partial below). *)
 Theorem c04_dec_out_sound : forall (np : bytes -> option bytes) ls,
   Forall (fun l => line_judgeable l = true) ls ->
   exists ms, dec_out np ls = Ok ms /\ flat_map den_out ms = flat_map sem_out_line ls.
@@ -64,14 +66,18 @@ Proof. exact event_line_sound. Qed.
 Print Assumptions c04_event_lines.
 
 (* float fields: the stored float32 prints back (rounded half-even at the protocol's precision)
-   to the numeral that was read - all canonical numerals within the digit bounds, both signs *)
-Theorem c04_float_tenths : forall s x, read_dec 1 s = Some (true, x) -> f32_scaled 1 (parse_float32 s) = x.
+   to the numeral that was read - all canonical numerals within the digit bounds, both signs.
+   _partial: the property text says "full numeric ranges"; missing are numerals with more integer
+   digits, other spellings (no / more decimals, exponents) and the exact float32 value itself -
+   those are judged by the search oracle only (Spec/SysExactOut.v: nearest-even float32 of the
+   decimal numeral, any length), not by a theorem. *)
+Theorem c04_float_tenths_partial : forall s x, read_dec 1 s = Some (true, x) -> f32_scaled 1 (parse_float32 s) = x.
 Proof. exact tenths_exact. Qed.
-Print Assumptions c04_float_tenths.
+Print Assumptions c04_float_tenths_partial.
 
-Theorem c04_float_hundredths : forall s x, read_dec 2 s = Some (true, x) -> f32_scaled 2 (parse_float32 s) = x.
+Theorem c04_float_hundredths_partial : forall s x, read_dec 2 s = Some (true, x) -> f32_scaled 2 (parse_float32 s) = x.
 Proof. exact hundredths_exact. Qed.
-Print Assumptions c04_float_hundredths.
+Print Assumptions c04_float_hundredths_partial.
 
 (* SysStat: any subset / order / repetition of fields, optional final ':' *)
 Theorem c04_sysstat_line : forall v rs,
